@@ -22,6 +22,7 @@ struct Ledger {
 extern Ledger g_ledger;
 extern unsigned long long g_alloc_total, g_alloc_live, g_alloc_peak;
 extern bool g_alloc_counted;  // false in sanitizer builds
+extern std::vector<uint8_t> g_last_out;  // output of the last W command
 
 struct TypeOps {
   // Converts |v| to a T, reports GetSize and writes it through |w|.
@@ -85,10 +86,11 @@ void ApplyPrior(const Json& prior, Holder<T>& h, JsonOut& o) {
   if (kind == "value") {
     if (!Abs<T>::from(prior.at("v"), h.ref())) o.kv_bool("badprior", true);
   } else if (kind == "read" || kind == "failread") {
-    std::vector<uint8_t> b = BytesOf(prior.at("b"));
+    std::vector<uint8_t> b = prior.at("b").is_str() ? g_last_out : BytesOf(prior.at("b"));
     ReaderSpec spec;
     spec.kind = "pedantic";
     DynReader pr(spec, b.data(), b.size());
+    pr.affine_handles = true;
     pr.log = false;
     if (kind == "failread") pr.SetFault(static_cast<long>(prior.at("k").num()), static_cast<int>(prior.at("e").num(16)));
     if (prior.has("handles"))
@@ -122,12 +124,13 @@ void ReadOp(const Json& item, DynReader& r, JsonOut& o) {
   }
   if (item.has("reread")) {
     // read a second encoding into the same (possibly failed) destination
-    std::vector<uint8_t> b = BytesOf(item.at("reread"));
+    std::vector<uint8_t> b = item.at("reread").is_str() ? g_last_out : BytesOf(item.at("reread"));
     ReaderSpec spec;
     spec.kind = "pedantic";
     DynReader rr(spec, b.data(), b.size());
     rr.log = false;
     rr.handle_table = r.handle_table;
+    rr.affine_handles = r.affine_handles;
     nop::Deserializer<DynReader*> d2{&rr};
     auto st2 = d2.Read(&h.ref());
     o.kv_num("st2", Code(st2));
